@@ -56,7 +56,7 @@ def run(chk, opts):
     chk.rule = ("all %d configurations exported from TLC's design run of Transforms.tla (operation x shape of order 2-3 x rank x input family "
                 "{generic, Pythagorean columns, zero column, zero-mean column, negative / zero / absent weights} x mode x operand x keep_dim x copy "
                 "x tuple/object/method%s), one seeded integer input each; distinct = distinct configurations"
-                % (len(cfgs), "" if thorough else "; quick tier = the spec's deterministic 1-in-4 thinning of the large option products"))
+                % (len(cfgs), "" if thorough else "; quick tier = the spec's deterministic 1-in-6 thinning of the large option products"))
     for e in events:
         if "cfg" in e:
             chk.distinct.add(str(e["cfg"]))
